@@ -143,11 +143,22 @@ func InspectCar(inStream *os.File, verifyHashes bool) (*Report, error) {
 	if stats.Version == 1 && verifyHashes { // check that we've read all the data
 		// The reader works through ReadAt, which does not move the file position: probe right
 		// after the last byte the inspection has read.
-		got, err := inStream.ReadAt(make([]byte, 1), tracked.end) // force EOF
-		if err != nil && err != io.EOF {
-			return nil, err
-		} else if got > 0 {
-			return nil, fmt.Errorf("unexpected data after EOF: %d", got)
+		// The inspection reads with ZeroLengthSectionAsEOF: it stops at the first byte of null padding.
+		// What follows may be more padding, and nothing else.
+		buf := make([]byte, 4096)
+		for off := tracked.end; ; {
+			got, err := inStream.ReadAt(buf, off)
+			for _, b := range buf[:got] {
+				if b != 0 {
+					return nil, fmt.Errorf("unexpected data after EOF: %d", got)
+				}
+			}
+			off += int64(got)
+			if err == io.EOF {
+				break
+			} else if err != nil {
+				return nil, err
+			}
 		}
 	}
 
